@@ -218,6 +218,16 @@ Set(f) == st' = [st EXCEPT ![Len(st)] = f]
 Keep == UNCHANGED <<path, mode, rootpos, rootpv, rootlines>>
 Ok == st # <<>> /\ Top.ply = E.p
 
+\* the first step of a node after its entry, other than D: the node has not been recognised as drawn, so the history
+\* must not make it a draw (repetition only on null-free histories, where the engine's window rule is exact)
+Drawn(p) == \/ NullFree(path) /\ RepeatedPV(p, path)
+            \/ p.hmc >= 100 /\ Legal(p) # {}
+            \/ InsufficientPV(p.board) = "T"
+NotDrawn(f) ==
+    (f.last \in {"N", "Q"} /\ f.ply > 0) =>
+        Viol(~Drawn(f.pos), "C11", "draw-not-recognised-in-the-search",
+             [fen |-> FenOf(f.pos), root |-> FenOf(rootpos), ply |-> f.ply, quiescence |-> f.q])
+
 Abort ==
     /\ IsStep("X")
     /\ mode' = "aborted"
@@ -239,14 +249,16 @@ DrawStep ==
 
 LeafStep ==
     /\ InTop("L")
-    /\ IF Ok THEN /\ Drift(Top.last = "N" /\ ~Top.q, "leaf-after-other-steps", [last |-> Top.last])
+    /\ IF Ok THEN /\ NotDrawn(Top)
+                  /\ Drift(Top.last = "N" /\ ~Top.q, "leaf-after-other-steps", [last |-> Top.last])
                   /\ Set([Top EXCEPT !.last = "L"])
        ELSE UNCHANGED st
     /\ Keep /\ Bump("L")
 
 TableStep ==
     /\ InTop("T")
-    /\ IF Ok THEN /\ Drift(Top.last = "N" /\ Top.ply > 0 /\ ~IsPv(Top), "table-return-in-a-pv-or-root-node", [ply |-> Top.ply])
+    /\ IF Ok THEN /\ NotDrawn(Top)
+                  /\ Drift(Top.last = "N" /\ Top.ply > 0 /\ ~IsPv(Top), "table-return-in-a-pv-or-root-node", [ply |-> Top.ply])
                   /\ Set([Top EXCEPT !.last = "T", !.lv = <<E.v[1], E.v[2], E.v[3]>>])
        ELSE UNCHANGED st
     /\ Keep /\ Bump("T")
@@ -256,10 +268,12 @@ StaticStep ==
     /\ IF Ok
        THEN LET f == Top
             IN  IF f.q
-                THEN /\ Set([f EXCEPT !.last = "S", !.lv = <<E.v[1], 0, 0>>, !.se = E.v[1], !.best = E.v[1],
+                THEN /\ NotDrawn(f)
+                     /\ Set([f EXCEPT !.last = "S", !.lv = <<E.v[1], 0, 0>>, !.se = E.v[1], !.best = E.v[1],
                                       !.a = IF E.v[1] < f.b /\ E.v[1] > f.a THEN E.v[1] ELSE f.a])
                 ELSE LET chk == InCheck(f.pos)
-                     IN  /\ Viol((E.v[3] = 1) = chk, "C01", "check-verdict-at-a-search-node",
+                     IN  /\ NotDrawn(f)
+                         /\ Viol((E.v[3] = 1) = chk, "C01", "check-verdict-at-a-search-node",
                                  [fen |-> FenOf(f.pos), engine |-> E.v[3] = 1, rule_book |-> chk, root |-> FenOf(rootpos)])
                          /\ Drift(E.v[2] = f.d + (IF chk /\ f.d < 255 THEN 1 ELSE 0), "check-extension", [d |-> f.d, deff |-> E.v[2]])
                          /\ Drift(E.v[2] > 0, "search-continues-at-depth-0", [ply |-> f.ply])
